@@ -31,6 +31,14 @@ inductive Prim where
   | catchPF (l : Option Nat)                -- CatchPatternFailure(label)
   | abort
   | other
+  -- produced by `await <group of flows>` only (Models/GroupExpandAwait.lean):
+  | assignUid (v a : Nat)                   -- `$_instance_uid_v = '(f<a>){uid()}'`
+  | sendStart (a v : Nat)                   -- send StartFlow(flow_id='f<a>', flow_instance_uid='{$_instance_uid_v}')
+  | matchStarted (a v x : Nat)              -- match FlowStarted(same arguments) as $_flow_event_ref_x   (internal)
+  | assignRef (r x : Nat)                   -- `$_ref_r = $_flow_event_ref_x.flow`
+  | matchFin (r : Nat)                      -- match $_ref_r.Finished()
+  | beginScope (s : Nat)
+  | endScope (s : Nat)
   deriving Repr, BEq, DecidableEq, Inhabited
 
 /-- `for idx, element in enumerate(and_group["elements"]): label; match; goto end` -/
